@@ -617,6 +617,9 @@ def decorate_for_help(d, rnd, hostile=None):
         if t["kind"] == "cmd":
             for c in t["cmds"]:
                 c["help"] = f"HELP-{tag}-cmd-{c['names'][0]}"
+            if lvl["named"] and lvl["named"][-1]["kind"] in ("switch", "reqflag", "arg") and not lvl["named"][-1].get("hidden") \
+                    and rnd.random() < 0.4:
+                t["grouped"] = f"GROUP-{tag}-cmds"
         for f in lvl["named"]:
             if f["kind"] == "adj":
                 for m in f["members"]:
